@@ -124,6 +124,15 @@ def gen_builtin(rng, nmax):
     case = {"n": n, "p": p, "X": X, "scale": scale, "cost": rng.choice(["l2", "gvar", "gcov"]), "int": as_int,
             "mean": rng.choice([0.0, 0.5, -1.0, 2.5, 0.75]) * scale, "var": rng.choice([0.5, 1.0, 4.0]) * scale * scale,
             "seed": rng.randint(0, 10**6)}
+    if rng.random() < 0.01:
+        # many variables in small or large units: the determinant of the fixed covariance is far outside the float range
+        # although every single variance is ordinary
+        p, n = rng.choice([60, 80]), rng.randint(100, 120)
+        unit = rng.choice([1e-3, 1e4])
+        g = np.random.default_rng(rng.randint(0, 10**6))
+        case.update({"p": p, "n": n, "cost": "gcov", "int": False, "scale": unit, "mean": 0.5 * unit, "var": unit * unit,
+                     "X": (g.normal(size=(n, p)) * unit).tolist(), "wide": True})
+        return case
     if p >= 2 and rng.random() < 0.4:  # a baseline mean per column, exactly 0 in some columns and not in others
         case["mean"] = [rng.choice([0.0, 0.0, 0.5, -1.0, 2.5]) * scale for _ in range(p)]
     return case
@@ -141,7 +150,20 @@ def direct_cost(case, rows, fixed):
         if fixed:
             return m * np.log(2 * np.pi * case["var"]) + ((rows - np.asarray(case["mean"], dtype=float)) ** 2).sum(axis=0) / case["var"]
         return m * np.log(2 * np.pi * np.maximum(rows.var(axis=0), 1e-16)) + m
-    return _mk(case, fixed).fit(rows).evaluate(np.array([[0, m]]))[0]
+    # multivariate Gaussian: twice the negative log-likelihood, from the rows with NumPy's own slogdet / solve
+    p = rows.shape[1]
+    if fixed:
+        mu = np.broadcast_to(np.asarray(case["mean"], dtype=float), (p,))
+        cov = np.eye(p) * float(case["var"])
+        sign, logdet = np.linalg.slogdet(cov)
+        R = rows - mu
+        quad = float(np.sum(R * np.linalg.solve(cov, R.T).T))
+        return np.array([m * p * np.log(2 * np.pi) + m * logdet + quad])
+    S = np.cov(rows, rowvar=False, ddof=0).reshape(p, p)
+    sign, logdet = np.linalg.slogdet(S)
+    if not sign > 0:
+        raise RuntimeError("sample covariance not positive definite")
+    return np.array([m * p * np.log(2 * np.pi) + m * logdet + m * p])
 
 
 def _mk(case, fixed):
@@ -180,7 +202,7 @@ def impl_builtin(case):
         c4 = [c for c in c4 if c[2] - c[1] >= ms and (c[1] - c[0]) + (c[3] - c[2]) >= ms]
         # a pure equal-length batch whose first split is centred and the others are not
         c3e = []
-        if n >= 12:
+        if n >= 12 and ms <= 4:
             L = 2 * rng.randint(max(2, ms), 4)
             s0 = rng.randint(0, n - L - 3)
             c3e = [(s0, s0 + L // 2, s0 + L)] + [(s0 + d, s0 + d + rng.randint(ms, L - ms), s0 + d + L) for d in (0, 1, 2, 3)]
